@@ -5,7 +5,7 @@ From Coq Require Import List NArith ZArith Bool Lia ZifyN ZifyBool.
 From V Require Import C12.Model C12.Proofs C13.Model C13.Proofs C13.Proofs_Votes C13.Proofs_Commit
   C13.Proofs_Life C13.Proofs_Resume C13.Proofs_Replay C13.Proofs_Obs C13.Proofs_ObsStep C13.Proofs_Cells
   C13.Proofs_Shape C13.Proofs_Wal C13.Proofs_Crash C13.Proofs_MidGen C13.Proofs_Fut C13.Proofs_Upd
-  C13.Proofs_Core C13.Proofs_Inv C13.Proofs_Final.
+  C13.Proofs_Core C13.Proofs_Inv C13.Proofs_Final C13.Proofs_State C13.Proofs_Tail.
 Import ListNotations.
 Open Scope N_scope.
 
@@ -72,7 +72,7 @@ Lemma bump_prune_spec : forall l h l', bump_prune l h = Some l' ->
 Proof.
   induction l as [|x l IH]; intros h l' H; simpl in H; [discriminate|]. destruct x as [e|h0].
   - destruct (bump_prune l h) as [r'|] eqn:E; [|discriminate]. inversion H. subst l'.
-    destruct (IH h r' eq_refl) as [A B]. split; [unfold rents in *; simpl; rewrite A; reflexivity|].
+    destruct (IH h r' E) as [A B]. split; [unfold rents in *; simpl; rewrite A; reflexivity|].
     intros g [Hg|Hg]; [discriminate|]. destruct (B g Hg) as [X|X]; [left; right; exact X|right; exact X].
   - inversion H. subst l'. split; [reflexivity|]. intros g [Hg|Hg].
     + inversion Hg. destruct (N.max_spec h0 h) as [[_ M]|[_ M]]; rewrite M; [right; reflexivity|left; left; reflexivity].
@@ -99,8 +99,8 @@ Proof.
   - destruct (IH seen w Hok Hp) as [A [B C]]. auto.
   - (* CommitCb *)
     destruct (IH (h :: seen) w Hok Hp) as [A [B C]]. split; [exact A|]. split; [exact B|].
-    intros g Hg. destruct (C g Hg) as [X|[[->|X]|X]]; auto.
-    + right. right. left. reflexivity.
+    intros g Hg. destruct (C g Hg) as [X|[[X|X]|X]]; auto.
+    + subst g. right. right. left. reflexivity.
     + right. right. right. exact X.
   - (* Prune *)
     destruct Hok as [Hin Hok].
@@ -118,5 +118,279 @@ Proof.
     destruct W as [W1 [W2 W3]]. destruct (IH seen (wal_prune h w) Hok W2) as [A [B C]].
     split; [rewrite A; exact W1|]. split; [exact B|].
     intros g Hg. destruct (C g Hg) as [X|X]; [|right; exact X].
-    destruct (W3 g X) as [Y|->]; [left; exact Y|right; left; exact Hin].
+    destruct (W3 g X) as [Y|Y]; [left; exact Y|subst g; right; left; exact Hin].
 Qed.
+
+Lemma rp_ok_apps : forall l seen, rp_ok seen l -> apps l = [].
+Proof.
+  induction l as [|e l IH]; intros seen H; [reflexivity|]. destruct e; simpl in *; try (eapply IH; eassumption).
+  - contradiction.
+  - destruct H as [_ H]. eapply IH; eassumption.
+Qed.
+
+Lemma rep_pending : forall l, RepEffs l -> forall w, w_pending w = [] -> w_pending (apply_effects w l) = [].
+Proof.
+  intros l H. induction H; intros w Hp; cbn [apply_effects fold_left apply_effect]; auto.
+  - apply IHRepEffs. exact Hp.
+  - apply IHRepEffs. exact Hp.
+  - fold (apply_effects (wal_flush (wal_prune h w)) l). apply IHRepEffs. reflexivity.
+Qed.
+
+(* before the first commit callback a recovery does not touch the log *)
+Lemma rp_nocommit : forall l Dx, rp_ok [] l -> commits_in l = [] ->
+  w_durable (apply_effects (mkWal Dx []) l) = Dx /\ w_pending (apply_effects (mkWal Dx []) l) = [].
+Proof.
+  induction l as [|e l IH]; intros Dx Hok Hc; cbn [apply_effects fold_left]; [auto|].
+  fold (apply_effects (apply_effect (mkWal Dx []) e) l). destruct e; simpl in Hok; cbn [apply_effect].
+  - contradiction.
+  - unfold wal_flush. cbn [w_durable w_pending]. rewrite app_nil_r. apply IH; assumption.
+  - apply IH; assumption.
+  - apply IH; assumption.
+  - unfold commits_in in Hc. simpl in Hc. discriminate.
+  - destruct Hok as [[] _].
+Qed.
+
+Lemma consecutive_lt : forall l h x, consecutive_from h l = true -> In x l -> x < h + N.of_nat (length l).
+Proof.
+  induction l as [|y l IH]; intros h x C Hin; [contradiction|]. simpl in C. apply andb_prop in C. destruct C as [C1 C2].
+  apply N.eqb_eq in C1. subst y. destruct Hin as [<-|Hin]; [simpl; lia|].
+  specialize (IH (h + 1) x C2 Hin). simpl length. lia.
+Qed.
+
+Lemma consecutive_firstn : forall l h j, consecutive_from h (commits_in l) = true ->
+  consecutive_from h (commits_in (firstn j l)) = true.
+Proof.
+  intros l h j C. rewrite <- (firstn_skipn j l), commits_in_app, consecutive_app in C.
+  apply andb_prop in C. apply C.
+Qed.
+
+Section Lives.
+  Variable E : env.
+  Hypothesis Hdet : value_deterministic E.
+  Hypothesis Qpos : quorum_positive E.
+  Let cE := c0 E.
+
+  (* a world a validator process can be started in: resume height H, log directory D, effects EH of all
+     earlier lives *)
+  Record Coh (H : N) (D : list wrec) (EH : list effect) : Prop := mkCoh {
+    c_pos : 0 < H;
+    c_prunes : prunes_below H D;
+    c_msgs : Forall (fun x => is_msg x = true) (futs H (rents D));
+    c_disc : core_disc E H (rents D) = true;
+    c_cover : forall k v, In v (votes_in k EH) -> H <= v_h v -> In v (votes_of k (snd (core E H (rents D))));
+    c_vh : forall k v, In v (votes_in k EH) -> v_h v <= H
+  }.
+
+  Lemma Coh_init : forall h0, 1 <= h0 -> Coh h0 [] [].
+  Proof.
+    intros h0 Hh. constructor; try (constructor; fail); try reflexivity; try lia;
+      intros k v Hin; destruct k; contradiction.
+  Qed.
+
+  Lemma curs_msgs_above : forall H g A, H < g -> Forall (fun x => is_msg x = true) (futs H A) ->
+    Forall (fun x => is_msg x = true) (curs g A).
+  Proof.
+    intros H g A Hlt F. rewrite <- (curs_futs H g A Hlt). apply Forall_forall. intros x Hx.
+    unfold curs in Hx. apply filter_In in Hx. rewrite Forall_forall in F. apply F. apply Hx.
+  Qed.
+
+  (* ---------- the recovery phase establishes the boundary invariant of the life ---------- *)
+  Lemma recovery_BI : forall H D EH n, Coh H D EH ->
+    BI E H D EH (fst (recover E H D n)) (flat (snd (recover E H D n))).
+  Proof.
+    intros H D EH n [Cp Cpr Cm Cd Cc Cv].
+    assert (Hh0 : 1 <= H) by lia.
+    set (A := rents D) in *.
+    destruct (core_facts E H A) as [Wx [Nx [Shape Em]]].
+    pose proof (core_reset E H A) as Rst. pose proof (core_votes E H A Cd) as Cvh.
+    assert (RL : forall n2, obs_eq (d_sm (fst (recover E H D n2))) (upds cE (fst (fst (core E H A))) (futs H A)) /\
+                 (forall k, votes_in k (flat (snd (recover E H D n2))) = votes_of k (snd (core E H A)))).
+    { intro n2. apply (recover_link E Hdet H D n2 Cp Cpr Cm). }
+    destruct (RL n) as [R1 R2].
+    assert (Dsc : replay_disc E (boot H D n) (load D) = true) by (rewrite (replay_disc_core E Hdet H D n Cp Cpr Cm); exact Cd).
+    assert (CI : CInv E H (fst (recover E H D n)) (flat (snd (recover E H D n)))).
+    { unfold recover. apply (replay_P E (CInv E H) (fun r d i effs => CInv_step E H r d i effs) (load D) (boot H D n) []); [|exact Dsc].
+      split; [exists (mon_init H); apply Rel_init|]. simpl. split; [reflexivity|lia]. }
+    pose proof (replay_nval E (load D) (boot H D n) eq_refl) as Nv1.
+    pose proof (replay_rep E (load D) (boot H D n)) as RE.
+    destruct (replay_ok E (load D) (boot H D n)) as [_ [_ Wal1]]. cbn [boot d_wal] in Wal1.
+    unfold recover in *. set (d1 := fst (replay E (boot H D n) (load D))) in *.
+    set (effs1 := flat (snd (replay E (boot H D n) (load D)))) in *.
+    assert (Rok : rp_ok [] effs1) by (apply RepEffs_rp_ok; exact RE).
+    assert (Ap : apps effs1 = []) by (eapply rp_ok_apps; exact Rok).
+    assert (LLe : LL D effs1 = A) by (unfold LL; rewrite Ap, app_nil_r; reflexivity).
+    destruct CI as [Rl [Cons Hh]]. 
+    assert (Scx : scal (fst (fst (core E H A))) = scal (d_sm d1)).
+    { destruct R1 as [X _]. rewrite upds_scal in X. symmetry. exact X. }
+    destruct (scal_h _ _ Scx) as [Shx [Stx _]].
+    destruct (rp_wal effs1 [] (mkWal D []) Rok eq_refl) as [Wr [Wp Wg]]. rewrite <- Wal1 in Wr, Wp, Wg. cbn [w_durable w_pending app] in Wr, Wg.
+    assert (Pend : w_pending (d_wal d1) = []) by (rewrite Wal1; apply rep_pending; [exact RE|reflexivity]).
+    assert (VE : forall k v, In v (votes_in k effs1) -> v_h v = H) by (intros k v Hin; rewrite R2 in Hin; apply (Cvh k v Hin)).
+    assert (Vall : forall k v, In v (votes_in k (EH ++ effs1)) -> v_h v <= H).
+    { intros k v Hin. rewrite votes_in_app in Hin. apply in_app_or in Hin. destruct Hin as [X|X]; [apply (Cv k v X)|rewrite (VE k v X); lia]. }
+    assert (Prn : forall X, H + N.of_nat (length (commits_in effs1)) <= X -> prunes_below X (w_durable (d_wal d1) ++ w_pending (d_wal d1))).
+    { intros X HX. unfold prunes_below. apply Forall_forall. intros [e|g] Hin; [exact I|].
+      destruct (Wg g Hin) as [Y|[[]|Y]].
+      - rewrite app_nil_r in Y. unfold prunes_below in Cpr. rewrite Forall_forall in Cpr. specialize (Cpr _ Y). simpl in Cpr. lia.
+      - pose proof (consecutive_lt _ _ _ Cons Y). lia. }
+    (* every prefix of the recovery's effects *)
+    assert (Pre : forall j, let pre := firstn j effs1 in
+              resume_height H pre = H + N.of_nat (length (commits_in pre)) /\
+              rents (disk D pre) = A /\ prunes_below (resume_height H pre) (disk D pre) /\
+              (commits_in pre = [] -> disk D pre = D) /\
+              (forall k v, In v (votes_in k (EH ++ pre)) -> v_h v <= H)).
+    { intros j pre. assert (Rp : rp_ok [] pre) by (apply rp_ok_firstn; exact Rok).
+      assert (Cp' : consecutive_from H (commits_in pre) = true) by (apply consecutive_firstn; exact Cons).
+      pose proof (resume_height_count pre H Cp') as Rh.
+      destruct (rp_wal pre [] (mkWal D []) Rp eq_refl) as [Q1 [_ Q3]]. cbn [w_durable w_pending app] in Q1, Q3.
+      split; [exact Rh|]. split; [exact Q1|]. split.
+      - rewrite Rh. unfold prunes_below, disk. apply Forall_forall. intros [e|g] Hin; [exact I|].
+        destruct (Q3 g (in_or_app _ _ _ (or_introl Hin))) as [Y|[[]|Y]].
+        + rewrite app_nil_r in Y. unfold prunes_below in Cpr. rewrite Forall_forall in Cpr. specialize (Cpr _ Y). simpl in Cpr. lia.
+        + pose proof (consecutive_lt _ _ _ Cp' Y). lia.
+      - split; [intro Hc; apply (rp_nocommit pre D Rp Hc)|].
+        intros k v Hin. rewrite votes_in_app in Hin. apply in_app_or in Hin. destruct Hin as [X|X]; [apply (Cv k v X)|].
+        apply firstn_votes_incl in X. rewrite (VE k v X). lia. }
+    assert (Crash : forall j, CrashCov E H D EH (firstn j effs1)).
+    { intro j. destruct (Pre j) as [Rh [_ [_ [Dk Vh]]]]. split.
+      - intros n2 k v Hin Hge. destruct (commits_in (firstn j effs1)) eqn:Ec.
+        + rewrite Rh in *. simpl in *. rewrite N.add_0_r in *. rewrite (Dk eq_refl).
+          destruct (RL n2) as [_ R2']. rewrite R2'.
+          rewrite votes_in_app in Hin. apply in_app_or in Hin. destruct Hin as [X|X]; [apply (Cc k v X Hge)|].
+          apply firstn_votes_incl in X. rewrite <- R2. exact X.
+        + rewrite Rh in Hge. pose proof (Vh k v Hin). simpl in Hge. lia.
+      - intros k v Hin. rewrite Rh. pose proof (Vh k v Hin). lia. }
+    assert (Disk : forall j, DiskGood E H D (firstn j effs1)).
+    { intro j. destruct (Pre j) as [Rh [Rn [Pb _]]]. unfold DiskGood. rewrite Rn.
+      split; [rewrite Rh; lia|]. split; [exact Pb|].
+      destruct (N.eq_dec (resume_height H (firstn j effs1)) H) as [Eq|Ne].
+      - rewrite Eq. auto.
+      - assert (Hgt : H < resume_height H (firstn j effs1)) by (rewrite Rh in *; lia).
+        split; [apply (futs_msgs_sub H _ A); [lia|exact Cm]|].
+        unfold core_disc. apply sm_disc_msgs. apply (curs_msgs_above H _ A Hgt Cm). }
+    assert (Wf1 : WF (d_sm d1)).
+    { unfold WF. destruct R1 as [_ [Vh _]]. rewrite Vh.
+      pose proof (upds_wf cE (futs H A) _ Wx) as W2. unfold WF in W2. rewrite W2.
+      destruct (scal_h _ _ (upds_scal cE (futs H A) (fst (fst (core E H A))))) as [X _]. rewrite X. exact Shx. }
+    (* the boundary fields, at the height the recovery ended in *)
+    destruct Shape as [Sh|[Sh Su]].
+    - (* the recovery did not commit *)
+      assert (Eh : s_h (d_sm d1) = H) by lia.
+      constructor; rewrite ?LLe, ?Eh; auto.
+      + split; [exact Rl|]. split; [exact Cons|exact Hh].
+      + intros k v Hin Hge. rewrite votes_in_app in Hin. apply in_app_or in Hin. destruct Hin as [X|X]; [apply (Cc k v X Hge)|].
+        rewrite <- R2. exact X.
+      + rewrite rents_app, Wr, Wp, app_nil_r. reflexivity.
+      + apply Prn. lia.
+      + rewrite Pend. constructor.
+    - (* the recovery re-derived the commit of H *)
+      assert (Eh : s_h (d_sm d1) = H + 1) by lia.
+      assert (Rs : scal (d_sm d1) = scal (init_state (s_h (d_sm d1)))) by (rewrite <- Scx, Eh; apply Rst; exact Sh).
+      constructor; rewrite ?LLe, ?Eh; auto.
+      + split; [exact Rl|]. split; [exact Cons|exact Hh].
+      + apply (futs_msgs_sub H (H + 1) A); [lia|exact Cm].
+      + apply (commit_next E H Hh0 H A (d_sm d1) R1 Cm Eh Rs).
+      + intros k v Hin Hge. pose proof (Vall k v Hin). lia.
+      + intros k v Hin. pose proof (Vall k v Hin). lia.
+      + rewrite rents_app, Wr, Wp, app_nil_r. reflexivity.
+      + apply Prn. lia.
+      + rewrite Pend. constructor.
+      + unfold core_disc. apply sm_disc_msgs. apply (curs_msgs_above H (H + 1) A ltac:(lia) Cm).
+  Qed.
+  (* ---------- a whole life on a coherent world ---------- *)
+  Lemma life_BI : forall H D EH n ins, Coh H D EH ->
+    live_good E (fst (recover E H D n)) ins = true ->
+    BI E H D EH (fst (lifetime E H D n ins)) (flat (snd (lifetime E H D n ins))).
+  Proof.
+    intros H D EH n ins C G. assert (Hh0 : 1 <= H) by (pose proof (c_pos _ _ _ C); lia).
+    pose proof (recovery_BI H D EH n C) as B1.
+    unfold live_good in G. apply andb_prop in G. destruct G as [G1 G2].
+    unfold lifetime. destruct (recover E H D n) as [d1 tr1]. cbn [fst snd] in *.
+    assert (Ps : forall d i effs, BI E H D EH d effs -> good_step E d i = true ->
+               BI E H D EH (fst (fst (dstep E false d i))) (effs ++ snd (fst (dstep E false d i))))
+      by (intros; apply (BI_step E Hdet Qpos H Hh0 D EH); assumption).
+    unfold run_live. pose proof (starts_PG E (BI E H D EH) Ps SFUEL d1 _ B1 G1) as B2.
+    destruct (starts E SFUEL d1) as [d2 tr2]. cbn [fst snd] in *.
+    pose proof (listen_PG E (BI E H D EH) Ps ins d2 _ B2 G2) as B3.
+    destruct (listen E d2 ins) as [d3 tr3]. cbn [fst snd] in *.
+    rewrite !flat_app, app_assoc. exact B3.
+  Qed.
+
+  (* whatever prefix of its effects a life got to perform, the world it leaves is coherent *)
+  Lemma BI_next_Coh : forall H D EH d effs k, BI E H D EH d effs ->
+    Coh (resume_height H (firstn k effs)) (crash_at k effs D) (EH ++ firstn k effs).
+  Proof.
+    intros H D EH d effs k B. destruct (b_crash _ _ _ _ _ _ B k) as [C1 C2].
+    destruct (b_disk _ _ _ _ _ _ B k) as [Dp [Dpr [Dm Dd]]].
+    change (crash_at k effs D) with (disk D (firstn k effs)).
+    constructor; auto.
+    intros kd v Hin Hge. specialize (C1 0 kd v Hin Hge).
+    destruct (recover_link E Hdet _ _ 0 Dp Dpr Dm) as [_ RL]. rewrite RL in C1. exact C1.
+  Qed.
+
+  Lemma listen_good_disc : forall ins d, listen_good E d ins = true -> listen_disc E d ins = true.
+  Proof.
+    induction ins as [|i rest IH]; intros d G; cbn [listen_good listen_disc] in *; [reflexivity|].
+    apply andb_prop in G. destruct G as [G1 G].
+    assert (Hok : ok_input (d_sm d) i = true).
+    { unfold good_step, good_body in G1. apply andb_prop in G1. apply G1. }
+    rewrite Hok. cbn [andb]. destruct (dstep E false d i) as [[d1 eff] com].
+    apply andb_prop in G. destruct G as [_ G]. apply IH. exact G.
+  Qed.
+
+  Lemma life_disc_of : forall H D EH n ins, Coh H D EH ->
+    listen_disc E (fst (starts E SFUEL (fst (recover E H D n)))) ins = true ->
+    life_disc E H D n ins = true.
+  Proof.
+    intros H D EH n ins [Cp Cpr Cm Cd _ _] L. unfold life_disc.
+    rewrite (replay_disc_core E Hdet H D n Cp Cpr Cm), Cd. exact L.
+  Qed.
+
+  (* a life on a coherent world does not contradict any earlier life *)
+  Lemma life_no_conflict : forall H D EH n ins, Coh H D EH ->
+    listen_disc E (fst (starts E SFUEL (fst (recover E H D n)))) ins = true ->
+    no_conflict EH (flat (snd (lifetime E H D n ins))) = true.
+  Proof.
+    intros H D EH n ins C L. pose proof (life_disc_of H D EH n ins C L) as Hd.
+    destruct C as [Cp Cpr Cm Cd Cc Cv].
+    assert (Cover : forall kd v, In v (votes_in kd EH) -> H <= v_h v ->
+              In v (votes_in kd (flat (snd (lifetime E H D n ins))))).
+    { intros kd v Hin Hge. destruct (recover_link E Hdet H D n Cp Cpr Cm) as [_ RL].
+      unfold lifetime. destruct (recover E H D n) as [d1 tr1]. destruct (run_live E d1 ins) as [d2 tr2]. cbn [snd] in *.
+      rewrite flat_app, votes_in_app. apply in_or_app. left. rewrite RL. apply (Cc kd v Hin Hge). }
+    assert (NC : forall kd, no_conflict_kind kd EH (flat (snd (lifetime E H D n ins))) = true).
+    { intro kd. apply no_conflict_kind_intro. intros a b Ha Hb.
+      unfold conflicts. destruct (same_slot a b) eqn:S; [|reflexivity]. simpl.
+      pose proof (life_votes_height E H D n ins Hd kd b Hb) as Hbh.
+      assert (Hah : H <= v_h a) by (unfold same_slot in S; lia).
+      pose proof (Cover kd a Ha Hah) as Ha'.
+      rewrite (one_per_slot_unique _ a b (life_one_per_slot E H D n ins kd Hd) Ha' Hb S).
+      rewrite oid_eqb_refl. reflexivity. }
+    unfold no_conflict. rewrite !NC. reflexivity.
+  Qed.
+
+  (* ---------- induction over the lives ---------- *)
+  Theorem Worlds_Coh : forall H D EH, Worlds E H D EH -> Coh H D EH.
+  Proof.
+    intros H D EH W. induction W as [h0 Hh|H D EH n ins k W IH G].
+    - apply Coh_init. exact Hh.
+    - apply (BI_next_Coh H D EH _ _ k (life_BI H D EH n ins IH G)).
+  Qed.
+
+  Theorem no_conflict_any_crashes : forall H D EH n ins, Worlds E H D EH ->
+    listen_disc E (fst (starts E SFUEL (fst (recover E H D n)))) ins = true ->
+    no_conflict EH (flat (snd (lifetime E H D n ins))) = true /\ life_disc E H D n ins = true.
+  Proof.
+    intros H D EH n ins W L. pose proof (Worlds_Coh H D EH W) as C.
+    split; [apply life_no_conflict; assumption|eapply life_disc_of; eassumption].
+  Qed.
+
+  Theorem resume_any_crashes : forall H D EH n ins, Worlds E H D EH ->
+    listen_disc E (fst (starts E SFUEL (fst (recover E H D n)))) ins = true ->
+    consecutive_from H (commits_in (flat (snd (lifetime E H D n ins)))) = true /\
+    s_h (d_sm (fst (lifetime E H D n ins))) = H + N.of_nat (length (commits_in (flat (snd (lifetime E H D n ins))))).
+  Proof.
+    intros H D EH n ins W L. apply resume_height_lemma.
+    eapply life_disc_of; [apply Worlds_Coh; exact W|exact L].
+  Qed.
+End Lives.
